@@ -383,4 +383,245 @@ theorem exec_operands (K : PCtx) (wf : K.WF) (l' r' : AExpr) (vl vr : Word) (σ 
     rw [← Nat.add_assoc]
     exact st1.trans st2
 
+/-! ### Operator shapes -/
+
+theorem ExecA.same {K : PCtx} {e' : AExpr} {v : Word} {σ σ' : X.St} (h : ExecA K e' v σ) (hs : SameVars σ σ') :
+    ExecA K e' v σ' := by
+  intro gs code gs' i a b mem io hg hat hr hsz hnl hci
+  obtain ⟨b', mem', st, rep, frm⟩ := h gs code gs' i a b mem io hg hat (hr.same hs.symm) hsz hnl hci
+  exact ⟨b', mem', st, rep.same hs, frm⟩
+
+theorem ExecB.same {K : PCtx} {e' : AExpr} {v : Word} {σ σ' : X.St} (h : ExecB K e' v σ) (hs : SameVars σ σ') :
+    ExecB K e' v σ' := by
+  intro gs code gs' i a b mem io hg hat hr hci
+  exact h gs code gs' i a b mem io hg hat (hr.same hs.symm) hci
+
+theorem low_single_dir (K : PCtx) (d : Dir) : K.low [.dir d] = [d] := rfl
+
+theorem shape_plus (K : PCtx) (wf : K.WF) (L R : AExpr) (vl vr : Word) (σ : X.St)
+    (hL : ExecA K L vl σ) (hRA : needsAReg R = true → ExecA K R vr σ) (hRB : needsAReg R = false → ExecB K R vr σ) :
+    ExecA K (.bin .plus L R none) (vl + vr) σ := by
+  intro gs code gs' i a b mem io hg hat hr hsz hnl hci
+  obtain ⟨c, h1, hcode⟩ := genExpr_plus_inv _ _ _ _ _ _ _ hg
+  subst hcode
+  simp only [low_append] at hat ⊢
+  obtain ⟨mem', st, rep, frm⟩ := exec_operands K wf L R vl vr σ hL hRA hRB gs c gs' i a b mem io h1 hat.left hr hsz hnl hci
+  have hat2 := hat.right
+  simp only [iADD, low_single_dir] at hat2 ⊢
+  have s := Step.add (env := K.env) (cfg (i + (K.low c).length) vl vr mem') io hat2.head
+  refine ⟨vr, mem', ?_, rep, frm⟩
+  simp only [List.length_append, List.length_cons, List.length_nil, ← Nat.add_assoc]
+  exact st.trans (Steps.one s)
+
+theorem shape_minus (K : PCtx) (wf : K.WF) (L R : AExpr) (vl vr : Word) (σ : X.St)
+    (hL : ExecA K L vl σ) (hRA : needsAReg R = true → ExecA K R vr σ) (hRB : needsAReg R = false → ExecB K R vr σ) :
+    ExecA K (.bin .minus L R none) (vl - vr) σ := by
+  intro gs code gs' i a b mem io hg hat hr hsz hnl hci
+  obtain ⟨c, h1, hcode⟩ := genExpr_minus_inv _ _ _ _ _ _ _ hg
+  subst hcode
+  simp only [low_append] at hat ⊢
+  obtain ⟨mem', st, rep, frm⟩ := exec_operands K wf L R vl vr σ hL hRA hRB gs c gs' i a b mem io h1 hat.left hr hsz hnl hci
+  have hat2 := hat.right
+  simp only [iSUB, low_single_dir] at hat2 ⊢
+  have s := Step.sub (env := K.env) (cfg (i + (K.low c).length) vl vr mem') io hat2.head
+  refine ⟨vr, mem', ?_, rep, frm⟩
+  simp only [List.length_append, List.length_cons, List.length_nil, ← Nat.add_assoc]
+  exact st.trans (Steps.one s)
+
+theorem low_selectTail_length (K : PCtx) (br : String → IDir) (hbr : ∀ l, ∃ d, br l = .dir d) (t e : String) :
+    (K.low (selectTail br t e)).length = 6 := by
+  obtain ⟨d, hd⟩ := hbr t
+  simp [selectTail, PCtx.low, lowerCode_cons, lowerCode_nil, hd, iLDAC, lBR, iLabel]
+
+/-- The operand of the zero test of `=` / `<`: the word `vl - vr`, or `vr` itself when the left
+    operand is the constant zero (only `=` uses that shortcut). -/
+theorem exec_eqOperand (K : PCtx) (wf : K.WF) (L R : AExpr) (vl vr : Word) (σ : X.St) (lz rz : Bool)
+    (hL : ExecA K L vl σ) (hR : ExecA K R vr σ) (hRB : needsAReg R = false → ExecB K R vr σ)
+    (hlz : lz = true → vl = 0) (hrz : rz = true → vr = 0)
+    (gs : GS) (c : Code) (gs' : GS) (i : Nat) (a b : Word) (mem : Mem) (io : Isa.IOSt)
+    (hg : eqOperand lz rz (genExpr K.ctx L .A) (genExpr K.ctx R .A) (genOperands K.ctx L R) gs = .ok (c, gs'))
+    (hat : At K.env.ds i (K.low c)) (hr : Rep K σ mem)
+    (hsz : gs'.size ≤ K.S) (hnl : K.nlocals ≤ gs.offset) (hci : ConstsIn K gs') :
+    ∃ x b' mem', (x = vl - vr ∨ (lz = true ∧ vl = 0 ∧ x = vr)) ∧
+      Steps K.env (cfg i a b mem) io (cfg (i + (K.low c).length) x b' mem') io ∧
+      Rep K σ mem' ∧ Frm K gs.offset gs'.size mem mem' := by
+  rcases eqOperand_inv _ _ _ _ _ _ _ _ hg with ⟨h0, h1⟩ | ⟨_, h0, h1⟩ | ⟨_, _, c', h1, hcode⟩
+  · obtain ⟨b', mem', st, rep, frm⟩ := hR gs c gs' i a b mem io h1 hat hr hsz hnl hci
+    exact ⟨vr, b', mem', Or.inr ⟨h0, hlz h0, rfl⟩, st, rep, frm⟩
+  · have := hrz h0
+    subst this
+    obtain ⟨b', mem', st, rep, frm⟩ := hL gs c gs' i a b mem io h1 hat hr hsz hnl hci
+    exact ⟨vl, b', mem', Or.inl (by simp), st, rep, frm⟩
+  · subst hcode
+    simp only [low_append] at hat ⊢
+    obtain ⟨mem', st, rep, frm⟩ := exec_operands K wf L R vl vr σ hL (fun _ => hR) hRB gs c' gs' i a b mem io h1
+      hat.left hr hsz hnl hci
+    have hat2 := hat.right
+    simp only [iSUB, low_single_dir] at hat2 ⊢
+    have s := Step.sub (env := K.env) (cfg (i + (K.low c').length) vl vr mem') io hat2.head
+    refine ⟨vl - vr, vr, mem', Or.inl rfl, ?_, rep, frm⟩
+    simp only [List.length_append, List.length_cons, List.length_nil, ← Nat.add_assoc]
+    exact st.trans (Steps.one s)
+
+theorem shape_eq (K : PCtx) (wf : K.WF) (L R : AExpr) (vl vr : Word) (σ : X.St)
+    (hL : ExecA K L vl σ) (hR : ExecA K R vr σ) (hRB : needsAReg R = false → ExecB K R vr σ)
+    (hlz : L.isConstZero = true → vl = 0) (hrz : R.isConstZero = true → vr = 0) :
+    ExecA K (.bin .eq L R none) (rtEq vl vr) σ := by
+  intro gs code gs' i a b mem io hg hat hr hsz hnl hci
+  obtain ⟨c, gs1, h1, hgs', hcode⟩ := genExpr_eq_inv _ _ _ _ _ _ _ hg
+  subst hgs'; subst hcode
+  simp only [low_append] at hat ⊢
+  obtain ⟨x, b', mem', hx, st, rep, frm⟩ := exec_eqOperand K wf L R vl vr σ _ _ hL hR hRB hlz hrz gs c gs1 i a b mem io h1
+    hat.left hr hsz hnl hci
+  have st2 := exec_select_brz K wf _ _ (i + (K.low c).length) x b' mem' io hat.right
+  refine ⟨b', mem', ?_, rep, frm⟩
+  have hlen : (K.low (selectTail lBRZ (lab gs1.labelCount) (lab (gs1.labelCount + 1)))).length = 6 :=
+    low_selectTail_length K lBRZ (fun l => ⟨_, rfl⟩) _ _
+  simp only [List.length_append, hlen, ← Nat.add_assoc]
+  have hval : (if x = 0 then (1 : Word) else 0) = rtEq vl vr := by
+    rcases hx with hx | ⟨_, h0, hx⟩
+    · subst hx; rfl
+    · subst hx; subst h0; rw [rtEq_zero_left]; rfl
+  rw [← hval]
+  exact st.trans st2
+
+theorem shape_ls (K : PCtx) (wf : K.WF) (L R : AExpr) (vl vr : Word) (σ : X.St)
+    (hL : ExecA K L vl σ) (hR : ExecA K R vr σ) (hRB : needsAReg R = false → ExecB K R vr σ)
+    (hrz : R.isConstZero = true → vr = 0) :
+    ExecA K (.bin .ls L R none) (rtLs vl vr) σ := by
+  intro gs code gs' i a b mem io hg hat hr hsz hnl hci
+  obtain ⟨c, gs1, h1, hgs', hcode⟩ := genExpr_ls_inv _ _ _ _ _ _ _ hg
+  subst hgs'; subst hcode
+  simp only [low_append] at hat ⊢
+  obtain ⟨x, b', mem', hx, st, rep, frm⟩ := exec_eqOperand K wf L R vl vr σ false _ hL hR hRB (by simp) hrz gs c gs1 i a b mem io h1
+    hat.left hr hsz hnl hci
+  have st2 := exec_select_brn K wf _ _ (i + (K.low c).length) x b' mem' io hat.right
+  refine ⟨b', mem', ?_, rep, frm⟩
+  have hlen : (K.low (selectTail lBRN (lab gs1.labelCount) (lab (gs1.labelCount + 1)))).length = 6 :=
+    low_selectTail_length K lBRN (fun l => ⟨_, rfl⟩) _ _
+  simp only [List.length_append, hlen, ← Nat.add_assoc]
+  have hval : (if x.toInt < 0 then (1 : Word) else 0) = rtLs vl vr := by
+    rcases hx with hx | ⟨h0, _, _⟩
+    · subst hx
+      unfold rtLs rtIsNeg
+      rw [BitVec.msb_eq_toInt]
+      by_cases h : (vl - vr).toInt < 0 <;> simp [h]
+    · simp at h0
+  rw [← hval]
+  exact st.trans st2
+
+theorem shape_not (K : PCtx) (wf : K.WF) (E : AExpr) (x : Word) (σ : X.St) (hE : ExecA K E x σ) :
+    ExecA K (.un .not E none) (rtIsZero x) σ := by
+  intro gs code gs' i a b mem io hg hat hr hsz hnl hci
+  obtain ⟨ce, h1, hcode⟩ := genExpr_not_inv _ _ _ _ _ _ hg
+  subst hcode
+  simp only [low_append] at hat ⊢
+  obtain ⟨b', mem', st, rep, frm⟩ := hE _ ce gs' i a b mem io h1 hat.left hr hsz hnl hci
+  have st2 := exec_select_brz K wf _ _ (i + (K.low ce).length) x b' mem' io hat.right
+  refine ⟨b', mem', ?_, rep, frm⟩
+  have hlen : (K.low (selectTail lBRZ (lab gs.labelCount) (lab (gs.labelCount + 1)))).length = 6 :=
+    low_selectTail_length K lBRZ (fun l => ⟨_, rfl⟩) _ _
+  simp only [List.length_append, hlen, ← Nat.add_assoc]
+  exact st.trans st2
+
+theorem shape_and (K : PCtx) (wf : K.WF) (L R : AExpr) (vl vr : Word) (σ : X.St)
+    (hL : ExecA K L vl σ) (hR : vl ≠ 0 → ExecA K R vr σ) :
+    ExecA K (.bin .and L R none) (if vl = 0 then vl else vr) σ := by
+  intro gs code gs' i a b mem io hg hat hr hsz hnl hci
+  obtain ⟨cl, gs1, cr, h1, h2, hcode⟩ := genExpr_and_inv _ _ _ _ _ _ _ hg
+  subst hcode
+  have e2 := genExpr_eff _ _ _ _ _ _ h2
+  obtain ⟨e2o, e2s, _, e2c⟩ := e2
+  have e1 := genExpr_eff _ _ _ _ _ _ h1
+  obtain ⟨e1o, e1s, _, _⟩ := e1
+  simp only at e1o e1s
+  simp only [low_append, List.append_assoc] at hat ⊢
+  obtain ⟨b1, mem1, st1, rep1, frm1⟩ := hL _ cl gs1 i a b mem io h1 hat.left hr (by omega) hnl
+    (fun x hx => hci x (e2c x hx))
+  simp only at frm1
+  have hat2 := hat.right
+  have hbrz : K.low [lBRZ (lab gs.labelCount)] = [.ref 0xA (lab gs.labelCount) true] := rfl
+  have hlbl : K.low [iLabel (lab gs.labelCount)] = [.label .plain (lab gs.labelCount)] := rfl
+  rw [hbrz, hlbl] at hat2
+  rw [hbrz, hlbl]
+  have hend := hat2.right.right.head
+  simp only [List.length_cons, List.length_nil] at hend
+  have lend := labelIdx_of_nodup _ _ _ _ wf.nodup hend
+  have s0 := Step.brz (env := K.env) (cfg (i + (K.low cl).length) vl b1 mem1) io _ _ hat2.head lend
+  simp only [List.length_append, List.length_cons, List.length_nil]
+  by_cases hz : vl = 0
+  · simp only [hz, if_true] at s0 ⊢
+    have s1 := Step.label (env := K.env) (cfg (i + (K.low cl).length + (0 + 1) + (K.low cr).length) 0 b1 mem1) io _ _
+      (by simpa using hend)
+    refine ⟨b1, mem1, ?_, rep1, frm1.mono (Nat.le_refl _) (by omega)⟩
+    have : i + ((K.low cl).length + (0 + 1 + ((K.low cr).length + (0 + 1))))
+        = i + (K.low cl).length + (0 + 1) + (K.low cr).length + 1 := by omega
+    rw [this]
+    rw [hz] at st1
+    exact st1.trans (Steps.step _ _ _ _ _ _ s0 (Steps.one s1))
+  · simp only [hz, if_false] at s0 ⊢
+    obtain ⟨b2, mem2, st2, rep2, frm2⟩ := hR hz gs1 cr gs' (i + (K.low cl).length + 1) vl b1 mem1 io h2
+      hat2.right.left rep1 hsz (by omega) hci
+    have s1 := Step.label (env := K.env) (cfg (i + (K.low cl).length + 1 + (K.low cr).length) vr b2 mem2) io _ _
+      (by simpa using hend)
+    refine ⟨b2, mem2, ?_, rep2, ?_⟩
+    · have : i + ((K.low cl).length + (0 + 1 + ((K.low cr).length + (0 + 1))))
+          = i + (K.low cl).length + 1 + (K.low cr).length + 1 := by omega
+      rw [this]
+      exact st1.trans (Steps.step _ _ _ _ _ _ s0 (st2.trans (Steps.one s1)))
+    · exact (frm1.mono (Nat.le_refl _) (by omega)).trans (frm2.mono (by omega) (Nat.le_refl _))
+
+theorem shape_or (K : PCtx) (wf : K.WF) (L R : AExpr) (vl vr : Word) (σ : X.St)
+    (hL : ExecA K L vl σ) (hR : vl = 0 → ExecA K R vr σ) :
+    ExecA K (.bin .or L R none) (if vl = 0 then vr else vl) σ := by
+  intro gs code gs' i a b mem io hg hat hr hsz hnl hci
+  obtain ⟨cl, gs1, cr, h1, h2, hcode⟩ := genExpr_or_inv _ _ _ _ _ _ _ hg
+  subst hcode
+  have e2 := genExpr_eff _ _ _ _ _ _ h2
+  obtain ⟨e2o, e2s, _, e2c⟩ := e2
+  have e1 := genExpr_eff _ _ _ _ _ _ h1
+  obtain ⟨e1o, e1s, _, _⟩ := e1
+  simp only at e1o e1s
+  simp only [low_append, List.append_assoc] at hat ⊢
+  obtain ⟨b1, mem1, st1, rep1, frm1⟩ := hL _ cl gs1 i a b mem io h1 hat.left hr (by omega) hnl
+    (fun x hx => hci x (e2c x hx))
+  simp only at frm1
+  have hat2 := hat.right
+  have hmid : K.low [lBRZ (lab gs.labelCount), lBR (lab (gs.labelCount + 1)), iLabel (lab gs.labelCount)]
+      = [.ref 0xA (lab gs.labelCount) true, .ref 0x9 (lab (gs.labelCount + 1)) true, .label .plain (lab gs.labelCount)] := rfl
+  have hlbl : K.low [iLabel (lab (gs.labelCount + 1))] = [.label .plain (lab (gs.labelCount + 1))] := rfl
+  rw [hmid, hlbl] at hat2
+  rw [hmid, hlbl]
+  have hfalse := hat2.left.get 2 _ rfl
+  have hend := hat2.right.right.head
+  simp only [List.length_cons, List.length_nil] at hend
+  have lfalse := labelIdx_of_nodup _ _ _ _ wf.nodup hfalse
+  have lend := labelIdx_of_nodup _ _ _ _ wf.nodup hend
+  have s0 := Step.brz (env := K.env) (cfg (i + (K.low cl).length) vl b1 mem1) io _ _ hat2.head lfalse
+  simp only [List.length_append, List.length_cons, List.length_nil]
+  by_cases hz : vl = 0
+  · simp only [hz, if_true] at s0 ⊢
+    have s1 := Step.label (env := K.env) (cfg (i + (K.low cl).length + 2) 0 b1 mem1) io _ _ hfalse
+    obtain ⟨b2, mem2, st2, rep2, frm2⟩ := hR hz gs1 cr gs' (i + (K.low cl).length + 2 + 1) 0 b1 mem1 io h2
+      (by have := hat2.right.left; simpa [Nat.add_assoc] using this) rep1 hsz (by omega) hci
+    have s2 := Step.label (env := K.env) (cfg (i + (K.low cl).length + 2 + 1 + (K.low cr).length) vr b2 mem2) io _ _
+      (by simpa [Nat.add_assoc] using hend)
+    refine ⟨b2, mem2, ?_, rep2, ?_⟩
+    · have : i + ((K.low cl).length + (0 + 1 + 1 + 1 + ((K.low cr).length + (0 + 1))))
+          = i + (K.low cl).length + 2 + 1 + (K.low cr).length + 1 := by omega
+      rw [this]
+      rw [hz] at st1
+      exact st1.trans (Steps.step _ _ _ _ _ _ s0 (Steps.step _ _ _ _ _ _ s1 (st2.trans (Steps.one s2))))
+    · exact (frm1.mono (Nat.le_refl _) (by omega)).trans (frm2.mono (by omega) (Nat.le_refl _))
+  · simp only [hz, if_false] at s0 ⊢
+    have s1 := Step.br (env := K.env) (cfg (i + (K.low cl).length + 1) vl b1 mem1) io _ _
+      (hat2.left.get 1 _ rfl) lend
+    have s2 := Step.label (env := K.env) (cfg (i + (K.low cl).length + (0 + 1 + 1 + 1) + (K.low cr).length) vl b1 mem1) io _ _
+      (by simpa using hend)
+    refine ⟨b1, mem1, ?_, rep1, frm1.mono (Nat.le_refl _) (by omega)⟩
+    have : i + ((K.low cl).length + (0 + 1 + 1 + 1 + ((K.low cr).length + (0 + 1))))
+        = i + (K.low cl).length + (0 + 1 + 1 + 1) + (K.low cr).length + 1 := by omega
+    rw [this]
+    exact st1.trans (Steps.step _ _ _ _ _ _ s0 (Steps.step _ _ _ _ _ _ s1 (Steps.one s2)))
+
 end Hex.C01s
